@@ -42,7 +42,9 @@ RULE = ("an enable mask is 18 bits (bias x3, bias_walk x3, noise x3, scale_misal
         "objects alive at once are updated interleaved without reset_estimates; 35% of the constructor "
         "cases use whole-number values and every argument is passed in a random container/dtype (int64/int32/"
         "float32/float64 ndarray, list/tuple of ints or floats, bare scalar, None) while updates stay fractional; "
-        "walking biases are also simulated with an exactly zero constant part; a "
+        "walking biases are also simulated with an exactly zero constant part; every valid model is also driven "
+        "through a history of 5-9 update calls of which ~45% have a wrong length (9+n filter state, one too many, "
+        "truncated slice, empty) whose ValueError is caught; a "
         "case is distinct by (mask, values) resp. by its full input tuple")
 
 XYZ = 'xyz'
@@ -301,6 +303,14 @@ def emodel_literal(em, problems):
 LIGHT_OPS = ['out', 'upd', 'get', 'state']
 
 
+def wrong_length(rng, ns):
+    """a length different from n_states: the full filter state (9 + n), one too many, a truncated slice, empty"""
+    opts = [9 + ns, ns + 1, ns + rng.randint(2, 4)]
+    if ns > 0:
+        opts += [0, ns - 1, rng.randrange(ns)]
+    return rng.choice(opts)
+
+
 def gen_ops(rng, em, light, stats):
     ns = em.n_states
     if light:
@@ -325,8 +335,7 @@ def gen_ops(rng, em, light, stats):
             lits.append(f"OUpdate {c_dyl(16, x)} false")
             log.append(['upd', x])
         elif kind == 'bad':
-            k = ns + rng.choice([1, 2]) if (ns == 0 or rng.random() < 0.5) else ns - 1
-            x = [rng.randint(-6, 6) for _ in range(k)]
+            x = [rng.randint(-6, 6) for _ in range(wrong_length(rng, ns))]
             try:
                 em.update_estimates(np.array(x) / 16.0)
                 raised = False
@@ -334,6 +343,11 @@ def gen_ops(rng, em, light, stats):
                 raised = True
             lits.append(f"OUpdate {c_dyl(16, x)} {'true' if raised else 'false'}")
             log.append(['bad', x, raised])
+            # what a rejected call left behind is observed at once
+            T = [to_int(x_, 16) for x_ in np.asarray(em.transform).reshape(-1)]
+            b = [to_int(x_, 16) for x_ in em.bias]
+            lits.append(f"OState {c_dy33(16, T)} {c_dy3(16, b)}")
+            log.append(['state', T, b])
         elif kind == 'reset':
             em.reset_estimates()
             lits.append("OReset")
@@ -814,6 +828,71 @@ def multi_model_checks(args_list, seed):
     return fails
 
 
+def gen_history(rng, ns):
+    """valid updates interleaved with rejected ones (too long / truncated / empty); entries over 16"""
+    h = []
+    for _ in range(rng.randint(5, 8)):
+        k = ns if rng.random() < 0.55 else wrong_length(rng, ns)
+        h.append([rng.randint(-6, 6) for _ in range(k)])
+    if not any(len(x) != ns for x in h):
+        h.insert(rng.randrange(1, len(h)), [rng.randint(-6, 6) for _ in range(9 + ns)])
+    if not any(len(x) == ns for x in h):
+        h.insert(0, [rng.randint(-6, 6) for _ in range(ns)])
+    return h
+
+
+def history_checks(args, seed, history=None):
+    """A caller feeds a history of vectors to update_estimates, catching the ValueError of the wrong-length
+    ones, and keeps using the model.  Clauses: a rejected call raises and changes NOTHING; the estimates are
+    the sum of the accepted vectors = one update (of a fresh model) with that sum; correct_increments agrees."""
+    rng = random.Random(seed)
+    em = construct(args)
+    if em is None:
+        return [], None
+    ns = em.n_states
+    h = history if history is not None else gen_history(rng, ns)
+    fails = []
+    total = np.zeros(ns)
+
+    def snap():
+        return np.array(em.transform, dtype=float).copy(), np.array(em.bias, dtype=float).copy(), em.get_estimates().values.copy()
+    for step, x in enumerate(h):
+        xv = np.array(x, dtype=float) / 16.0
+        before = snap()
+        try:
+            em.update_estimates(xv)
+            raised = False
+        except ValueError:
+            raised = True
+        if raised != (len(x) != ns):
+            fails.append(('accumulate', f"step {step}: update_estimates with {len(x)} values for {ns} states "
+                                        f"raised={raised}"))
+            break
+        if raised:
+            after = snap()
+            if not all(np.array_equal(u, v_) for u, v_ in zip(before, after)):
+                fails.append(('accumulate', f"step {step}: a REJECTED update ({len(x)} values for {ns} states, ValueError "
+                                            f"caught) changed the estimates: {before[2].tolist()} -> {after[2].tolist()}"))
+                break
+        else:
+            total = total + xv
+    if not fails:
+        got = snap()
+        one = construct(args)
+        one.update_estimates(total)
+        ref = (np.array(one.transform, dtype=float), np.array(one.bias, dtype=float), one.get_estimates().values)
+        if not np.array_equal(got[2], total):
+            fails.append(('get_after_update', f"after the history get_estimates = {got[2].tolist()} != sum of the accepted "
+                                              f"updates {total.tolist()}"))
+        elif not all(np.array_equal(u, v_) for u, v_ in zip(got, ref)):
+            fails.append(('accumulate', "after the history transform/bias differ from ONE update with the sum"))
+        elif abs(np.linalg.det(got[0])) >= 0.125:
+            inc = pd.Series(np.array([rng.randint(-32, 32) / 8.0 for _ in range(3)]), index=GYRO)
+            if np.abs(em.correct_increments(0.25, inc).values - one.correct_increments(0.25, inc).values).max() > 1e-12:
+                fails.append(('correct_undoes_apply', "correct_increments after the history differs from one update with the sum"))
+    return fails, h
+
+
 def imu_check(seed):
     """apply_imu_parameters = the two triads applied independently, identity by default."""
     from pyins.inertial_sensor import Parameters, apply_imu_parameters
@@ -996,6 +1075,18 @@ def _multi(res, group, mseed):
         res['violations'].append((f"{clause}: {msg}", dict(kind='multi', args_list=list(group), seed=mseed, clause=clause)))
 
 
+def _history(res, args, hseed):
+    try:
+        fl, h = history_checks(args, hseed)
+    except Exception:
+        fl, h = [('harness', traceback.format_exc()[-1500:])], None
+    res['stats']['history'] = res['stats'].get('history', 0) + 1
+    for clause, msg in fl[:2]:
+        res['violations'].append((f"{clause}: {msg}", dict(kind='history', args=args, seed=hseed, clause=clause,
+                                                           history16=h, note="entries of history16 are x*16; a vector "
+                                                           "whose length differs from n_states must be rejected")))
+
+
 def job_b(job):
     rng = random.Random(job['seed'])
     res = dict(kind='b', idx=job['idx'], n=0, broken=[], violations=[], keys=[], samples=[], stats={}, hist={})
@@ -1026,6 +1117,7 @@ def job_b(job):
         for clause, msg in fl[:3]:
             res['violations'].append((f"{clause}: {msg}", dict(kind='direct', args=args, seed=dseed, clause=clause)))
         if not summary.get('raised'):
+            _history(res, args, rng.getrandbits(32))
             group.append(args)
             if len(group) == 3 or (job['light'] and len(group) == 2):
                 _multi(res, group, rng.getrandbits(32))
@@ -1114,6 +1206,7 @@ def job_d(job):
         for clause, msg in fl[:2]:
             res['violations'].append((f"{clause}: {msg}", dict(kind='direct', args=args, seed=dseed, clause=clause)))
         if construct(args) is not None:
+            _history(res, args, rng.getrandbits(32))
             group.append(args)
             if len(group) == 3:
                 _multi(res, group, rng.getrandbits(32))
@@ -1195,6 +1288,9 @@ def check(r):
                 r.broken('correspondence', 'fixed direct case crashed', dict(args=a, tb=traceback.format_exc()[-1500:]))
             for clause, msg in fl[:2]:
                 r.violation(f"{clause}: {msg}", dict(kind='direct', args=a, seed=1000 + k, clause=clause))
+            fl, h = history_checks(a, 2000 + k)
+            for clause, msg in fl[:2]:
+                r.violation(f"{clause}: {msg}", dict(kind='history', args=a, seed=2000 + k, clause=clause, history16=h))
             r.case(('fixed', k))
         valid = [a for a in fixed if construct(a) is not None]
         for clause, msg in multi_model_checks(valid[:3], 77)[:2] + multi_model_checks(valid[3:6], 78)[:2]:
@@ -1291,6 +1387,20 @@ def replay(obj):
     print("what:", obj.get('what'))
     if rep.get('kind') == 'imu':
         fl = imu_check(rep['seed'])
+    elif rep.get('kind') == 'history':
+        args = rep['args']
+        b, n, w, S = arrays_of(args)
+        print("EstimationModel(bias_sd=%s, noise=%s, bias_walk=%s, scale_misal_sd=%s)" % (
+            b.tolist(), n.tolist(), w.tolist(), S.tolist()), "forms:", args.get('forms'))
+        em = construct(args)
+        print("n_states =", em.n_states, " states =", em.states)
+        for k, x in enumerate(rep.get('history16') or []):
+            print(f"  step {k}: update_estimates({[v_ / 16.0 for v_ in x]})",
+                  "(accepted)" if len(x) == em.n_states else "(wrong length: must raise ValueError and change nothing)")
+        print("model (Coq, C14_history_accumulates): estimates = sum of the accepted vectors",
+              (np.sum([np.array(x) / 16.0 for x in (rep.get('history16') or []) if len(x) == em.n_states], axis=0)
+               if em.n_states else np.zeros(0)).tolist())
+        fl, _ = history_checks(args, rep['seed'], rep.get('history16'))
     elif rep.get('kind') == 'multi':
         for k, a in enumerate(rep['args_list']):
             b, n, w, S = arrays_of(a)
